@@ -3,6 +3,7 @@
   be represented raise ValueError.
 -/
 import Robotools.Props.C02
+import Robotools.Proofs.CtorLemmas
 namespace Robotools.C20
 open Robotools
 
@@ -28,36 +29,117 @@ structure Consistent (L : Labware) : Prop where
 theorem table_grid (g : Geom) :
     g.table.length = g.nRowIds * g.cols
     ∧ ∀ p ∈ g.table, p.2.2 < g.cols ∧ (g.isTrough = true → p.2.1 = 0) ∧ (g.isTrough = false → p.2.1 < g.nRowIds) := by
-  sorry
+  refine ⟨g.table_length, ?_⟩
+  intro p hp
+  obtain ⟨r, c, hr, hc, rfl⟩ := (g.mem_table p).1 hp
+  refine ⟨hc, ?_, ?_⟩
+  · intro ht; simp [ht]
+  · intro ht; simpa [ht] using hr
+
+/-! Helper facts about the flat initial-volume list and the real wells. -/
+
+private theorem realWells_length (g : Geom) (hle : g.rows ≤ 26)
+    (hv : ∀ v, g.vrows = some v → g.rows = 1) : (realWellsOf g).length = g.rows * g.cols := by
+  unfold realWellsOf
+  cases hvr : g.vrows with
+  | none =>
+    simp only [Option.isSome_none, Bool.false_eq_true, if_false]
+    rw [g.wells_length]
+    simp only [Geom.nRowIds, hvr]
+    rw [Nat.min_eq_right hle]
+  | some v =>
+    simp [hv v hvr]
+
+private theorem mem_flatOf {a : Arr InitVal} {x : InitVal} {n : Nat} (hx : x ∈ a.flattenC) (hn : 0 < n) :
+    x ∈ flatOf (some a) n := by
+  cases a with
+  | scalar b =>
+    simp only [Arr.flattenC, List.mem_singleton] at hx
+    subst hx
+    show x ∈ List.replicate n x
+    exact List.mem_replicate.mpr ⟨by omega, rfl⟩
+  | vec l => exact hx
+  | mat r c l => exact hx
+
+private theorem flat_some {flat : List InitVal}
+    (h : ¬ (flat.any fun x => match x with | none => true | some q => decide (q < 0)) = true)
+    {x : InitVal} (hx : x ∈ flat) : ∃ q, x = some q ∧ 0 ≤ q := by
+  cases x with
+  | none => exact absurd (List.any_eq_true.mpr ⟨none, hx, rfl⟩) h
+  | some q =>
+    refine ⟨q, rfl, Rat.not_lt.mp ?_⟩
+    intro hlt
+    exact h (List.any_eq_true.mpr ⟨some q, hx, by simpa using hlt⟩)
+
+private theorem consistent_of_inv {s : PlateSpec} {L : Labware} (I : MkInv s L) (V : C02.LabValid L) :
+    Consistent L := by
+  have hvr : ∀ v, L.geom.vrows = some v → L.geom.rows = 1 ∧ 1 ≤ v ∧ v ≤ 26 := by
+    intro v hv
+    cases hs : s.vrows with
+    | none => rw [I.vrows_none hs] at hv; cases hv
+    | some sv =>
+      obtain ⟨h1, n, -, hn1, hn2, hn⟩ := I.vrows_some sv hs
+      rw [hn] at hv
+      cases hv
+      exact ⟨h1, by omega, by omega⟩
+  have hsize : L.vols.length = L.geom.rows * L.geom.cols := by
+    rw [I.vols_eq, List.length_map, I.flat_len]
+  have hn : (realWellsOf L.geom).length = L.vols.length := by
+    rw [hsize]
+    exact realWells_length L.geom I.rows_le (fun v hv => (hvr v hv).1)
+  have G := initialComposition_spec _ _ _ _ _ _ I.comp_eq
+  rw [hn] at G
+  refine ⟨I.rows_pos, I.cols_pos, I.rows_le, hvr, hsize, ⟨V.min_nonneg, V.min_lt_max⟩, V.range,
+    I.hist_eq, G.lens, G.nodup, ?_⟩
+  intro i hi
+  exact ⟨fun h0 k => G.zero i hi h0 k, fun h0 => G.one i hi h0⟩
 
 /-- Accepted plate specifications give a consistent labware with the initial volumes laid out as
     given: scalar broadcast, row-major reshape of flat lists / 2-D arrays. -/
-theorem mk_ok (s : PlateSpec) (L : Labware) (h : Labware.mk? s = .ok L) : Consistent L := by
-  sorry
+theorem mk_ok (s : PlateSpec) (L : Labware) (h : Labware.mk? s = .ok L) : Consistent L :=
+  consistent_of_inv (Labware.mk?_inv h) (C02.mk_valid s L h)
 
 theorem mk_layout_scalar (s : PlateSpec) (L : Labware) (q : Rat) (h : Labware.mk? s = .ok L)
     (hinit : s.init = some (.scalar (some q))) : ∀ v ∈ L.vols, v = q := by
-  sorry
+  intro v hv
+  rw [(Labware.mk?_inv h).vols_eq, hinit] at hv
+  simp only [flatOf, List.map_replicate, List.mem_replicate] at hv
+  exact hv.2
 
 theorem mk_layout_flat (s : PlateSpec) (L : Labware) (l : List InitVal) (h : Labware.mk? s = .ok L)
     (hinit : s.init = some (.vec l)) : L.vols.map some = l := by
-  sorry
+  have I := Labware.mk?_inv h
+  have hnn := I.flat_nonneg
+  rw [I.vols_eq, hinit]
+  rw [hinit] at hnn
+  simp only [flatOf, Arr.flattenC] at hnn ⊢
+  rw [List.map_map]
+  conv => rhs; rw [← List.map_id l]
+  apply List.map_congr_left
+  intro x hx
+  obtain ⟨q, rfl, -⟩ := flat_some hnn hx
+  rfl
 
 theorem mk_layout_none (s : PlateSpec) (L : Labware) (h : Labware.mk? s = .ok L)
     (hinit : s.init = none) : ∀ v ∈ L.vols, v = 0 := by
-  sorry
+  intro v hv
+  rw [(Labware.mk?_inv h).vols_eq, hinit] at hv
+  simp only [flatOf, List.map_replicate, List.mem_replicate] at hv
+  exact hv.2
 
 /-- Accepted trough specifications: one real row, per-column initial volumes. -/
 theorem trough_mk_ok (s : TroughSpec) (L : Labware) (h : Trough.mk? s = .ok L) :
     Consistent L ∧ L.geom.rows = 1 ∧ L.geom.vrows.isSome := by
-  sorry
+  obtain ⟨p, -, hv, hp⟩ := Trough.mk?_inv h
+  obtain ⟨h1, n, -, -, -, hn⟩ := (Labware.mk?_inv hp).vrows_some _ hv
+  exact ⟨mk_ok p L hp, h1, by rw [hn]; rfl⟩
 
 /-- Every rejection is a ValueError. -/
-theorem mk_error_is_valueErr (s : PlateSpec) (e : Err) (h : Labware.mk? s = .error e) : e = .valueErr := by
-  sorry
+theorem mk_error_is_valueErr (s : PlateSpec) (e : Err) (h : Labware.mk? s = .error e) : e = .valueErr :=
+  Labware.mk?_error h
 
-theorem trough_mk_error_is_valueErr (s : TroughSpec) (e : Err) (h : Trough.mk? s = .error e) : e = .valueErr := by
-  sorry
+theorem trough_mk_error_is_valueErr (s : TroughSpec) (e : Err) (h : Trough.mk? s = .error e) : e = .valueErr :=
+  Trough.mk?_error h
 
 /-- The unrepresentable specifications of the statement are rejected. -/
 def Unrepresentable (s : PlateSpec) : Prop :=
@@ -68,31 +150,86 @@ def Unrepresentable (s : PlateSpec) : Prop :=
   ∨ (∃ a, s.init = some a ∧ (∃ x ∈ a.flattenC, x = none ∨ ∃ q, x = some q ∧ (q < 0 ∨ s.maxV < q)))  -- NaN, negative, too large
 
 theorem mk_rejects (s : PlateSpec) (h : Unrepresentable s) : Labware.mk? s = .error .valueErr := by
-  sorry
+  cases hm : Labware.mk? s with
+  | error e => rw [Labware.mk?_error hm]
+  | ok L =>
+    exfalso
+    have I := Labware.mk?_inv hm
+    have hR1 := I.rows_pos
+    have hR26 := I.rows_le
+    have hC1 := I.cols_pos
+    rcases h with h | ⟨n, hn, h⟩ | h | ⟨n, hn, h⟩ | h | h | ⟨v, hv, h⟩ | ⟨a, ha, x, hx, h⟩
+    · exact h _ I.rows_eq
+    · rw [I.rows_eq] at hn
+      cases hn
+      omega
+    · exact h _ I.cols_eq
+    · rw [I.cols_eq] at hn
+      cases hn
+      omega
+    · exact I.min_ok h
+    · exact I.max_ok h
+    · obtain ⟨h1, -⟩ := I.vrows_some v hv
+      apply h
+      rw [I.rows_eq, h1]
+      rfl
+    · have hpos : 0 < L.geom.rows * L.geom.cols := Nat.mul_pos hR1 hC1
+      have hmem : x ∈ flatOf s.init (L.geom.rows * L.geom.cols) := by
+        rw [ha]; exact mem_flatOf hx hpos
+      obtain ⟨q, rfl, hq0⟩ := flat_some I.flat_nonneg hmem
+      rcases h with h | ⟨q', hq', h | h⟩
+      · cases h
+      · cases hq'
+        exact absurd hq0 (Rat.not_le.mpr h)
+      · cases hq'
+        apply I.vols_le
+        refine List.any_eq_true.mpr ⟨q, ?_, by simpa using h⟩
+        rw [I.vols_eq]
+        exact List.mem_map.mpr ⟨some q, hmem, rfl⟩
 
 /-- Wrong number of initial volumes. -/
 theorem mk_rejects_length (s : PlateSpec) (R C : Nat) (l : List InitVal)
     (hr : s.rows = .int R) (hc : s.cols = .int C) (hinit : s.init = some (.vec l)) (hlen : l.length ≠ R * C) :
     Labware.mk? s = .error .valueErr := by
-  sorry
+  cases hm : Labware.mk? s with
+  | error e => rw [Labware.mk?_error hm]
+  | ok L =>
+    exfalso
+    have I := Labware.mk?_inv hm
+    have h1 := I.rows_eq
+    have h2 := I.cols_eq
+    have h3 := I.flat_len
+    rw [hr] at h1
+    rw [hc] at h2
+    rw [hinit] at h3
+    cases h1
+    cases h2
+    exact hlen h3
 
 /-- Names for unknown wells or for empty wells. -/
 theorem initialComposition_rejects_unknown (name : String) (n : Nat) (wells : List String)
     (names : List (String × Option String)) (init : List Rat) (k : String) (v : Option String)
     (hk : (k, v) ∈ names) (hunk : k ∉ wells) :
     initialComposition name n wells names init = .error .valueErr := by
-  sorry
+  have hany : (names.any fun x => match x with | (k, _) => !wells.contains k) = true := by
+    refine List.any_eq_true.mpr ⟨(k, v), hk, ?_⟩
+    simpa using hunk
+  simp only [initialComposition, bind, Except.bind, throw, throwThe, MonadExceptOf.throw, hany,
+    if_true]
 
 /-- Default component names are distinct for distinct wells of a multi-row plate and distinct
     columns of a multi-column trough. -/
 theorem default_names_distinct (name : String) (r₁ c₁ r₂ c₂ : Nat) (h₁ : r₁ < 26) (h₂ : r₂ < 26)
     (h : name ++ "." ++ wellId r₁ c₁ = name ++ "." ++ wellId r₂ c₂) : r₁ = r₂ ∧ c₁ = c₂ := by
-  sorry
+  rw [String.append_right_inj] at h
+  exact wellId_injective h₁ h₂ h
 
 theorem default_column_names_distinct (name : String) (c₁ c₂ : Nat)
     (h : name ++ ".column_" ++ String.ofList (pad2 (c₁ + 1)) = name ++ ".column_" ++ String.ofList (pad2 (c₂ + 1))) :
     c₁ = c₂ := by
-  sorry
+  rw [String.append_right_inj] at h
+  have := pad2_inj (String.ofList_injective h)
+  omega
 
 example : (Labware.mk? { name := "P", rows := .int 27, cols := .int 2, minV := 0, maxV := 10, init := none, vrows := none, names := [] }).toOption.isNone = true := by
   decide +kernel
